@@ -12,6 +12,7 @@ Section ItemInd.
   Hypothesis Hn : forall t n mk, P (INew t n mk).
   Hypothesis Hp : forall t n mk, P (IGenPriv t n mk).
   Hypothesis Hj : forall t n mk, P (IGenJson t n mk).
+  Hypothesis Ha : forall pre inner, Forall P inner -> P (IAt pre inner).
   Fixpoint item_ind' (it : item) : P it :=
     match it with
     | IFunc name mk inner =>
@@ -23,6 +24,9 @@ Section ItemInd.
     | INew t n mk => Hn t n mk
     | IGenPriv t n mk => Hp t n mk
     | IGenJson t n mk => Hj t n mk
+    | IAt pre inner =>
+        Ha pre inner ((fix go (l : list item) : Forall P l :=
+                         match l with [] => Forall_nil P | x :: r => Forall_cons x (item_ind' x) (go r) end) inner)
     end.
 End ItemInd.
 
@@ -180,6 +184,15 @@ Proof.
   - apply orb_true_iff in H2 as [->|H2]; [reflexivity|]. rewrite forallb_forall in H2. rewrite (H2 _ Hx). apply orb_true_r.
 Qed.
 
+Lemma side_item_at fx pre inner :
+  side_item fx (IAt pre inner) = true -> forallb (side_item fx) inner = true.
+Proof.
+  unfold side_item. simpl. intros H. apply andb_true_iff in H as [H1 H2].
+  apply forallb_forall. intros x Hx. apply andb_true_iff. split.
+  - apply orb_true_iff in H1 as [->|H1]; [reflexivity|]. rewrite forallb_forall in H1. rewrite (H1 _ Hx). apply orb_true_r.
+  - apply orb_true_iff in H2 as [->|H2]; [reflexivity|]. rewrite forallb_forall in H2. rewrite (H2 _ Hx). apply orb_true_r.
+Qed.
+
 Definition item_ok (d : dcfg) (fx : fixes) (it : item) : Prop :=
   forall prefix ctx st st', place_item d fx prefix ctx it st = inr st' -> side_item fx it = true -> ukeys st ->
                             ext st st' (docs_item d fx prefix ctx it).
@@ -211,7 +224,7 @@ Qed.
 
 Theorem place_item_ok d fx : forall it, item_ok d fx it.
 Proof.
-  induction it as [name mk inner IHin|name ms IHms|t n mk|t n mk|t n mk] using item_ind'; intros prefix ctx st st' H S U.
+  induction it as [name mk inner IHin|name ms IHms|t n mk|t n mk|t n mk|pre inner IHin] using item_ind'; intros prefix ctx st st' H S U.
   - (* function *)
     simpl in H. simpl docs_item. unfold bindd in H. destruct (conv_d fx true name) as [e|p] eqn:Ec; [discriminate|].
     unfold ok_or_nil. destruct (check_func d (prefix ++ p) st) eqn:Ck; [discriminate|].
@@ -246,6 +259,9 @@ Proof.
   - simpl in H. simpl docs_item. destruct ctx; try discriminate.
     unfold side_item in S. simpl in S. apply andb_true_iff in S as [_ S]. rewrite orb_false_r in S.
     eapply gen_insert_ok; eauto.
+  - (* expansion of a @lazy call *)
+    simpl in H. simpl docs_item. destruct ctx; try discriminate;
+      (rewrite go_place in H; rewrite go_docs; eapply list_ok; eauto using side_item_at).
 Qed.
 
 Lemma side_forall fx prog : side fx prog = true -> forallb (side_item fx) prog = true.
@@ -291,7 +307,7 @@ Definition not_crash (r : derr + dstate) : Prop := r <> inl DCrash.
 Lemma crash_free d fx : fx_gendup fx = true ->
   forall it prefix ctx st, not_crash (place_item d fx prefix ctx it st).
 Proof.
-  intros G. induction it as [name mk inner IHin|name ms IHms|t n mk|t n mk|t n mk] using item_ind'; intros prefix ctx st.
+  intros G. induction it as [name mk inner IHin|name ms IHms|t n mk|t n mk|t n mk|pre inner IHat] using item_ind'; intros prefix ctx st.
   - simpl. unfold bindd, conv_d. destruct (convention (fx_strict fx) true "" name); [intros H; discriminate|].
     destruct (check_func d (prefix ++ s) st) eqn:Ck.
     + unfold check_func in Ck. intros H. inversion H; subst.
@@ -322,6 +338,10 @@ Proof.
     destruct (dget _ _) as [[m u]|]; [destruct (_ && _)|]; intros H; discriminate.
   - simpl. destruct ctx; try (intros H; discriminate). unfold gen_insert.
     destruct (dget _ _) as [[m u]|]; [destruct (_ && _)|]; intros H; discriminate.
+  - simpl. destruct ctx; try (intros H; discriminate);
+      (rewrite go_place; generalize st; induction inner as [|x r IHl]; intros s0; simpl; [intros H; discriminate|];
+       inversion IHat; subst; destruct (place_item d fx pre CFunc x s0) eqn:E;
+       [intros H; apply (H1 pre CFunc s0); rewrite E; congruence|now apply IHl]).
 Qed.
 
 Lemma place_crash_free d fx prog : fx_gendup fx = true -> place d fx prog <> inl DCrash.
